@@ -23,8 +23,9 @@ CLAIMS = {
          "residuals within the tolerances computed by check_convergence and Z exactly block-Toeplitz.", "4/C02",
          "np.linalg.eigh, the matrix product and spectral calculus are assumed (uninterpreted); convexity => KKT sufficiency is mathematics not "
          "re-proved. The unconditional clause (always stops within the budget for well-conditioned input) is a convergence-rate statement: "
-         "NOT decided by contracts, bounded stand-in only. Matrix-valued lambda: Lambda_class and frame conditions proved, the class-value "
-         "invariant of the Z-step only for the scalar form."),
+         "NOT decided by contracts, bounded stand-in only (random SPD covariances incl. an adaptive-rho callback: stops within budget, SPD, "
+         "block-Toeplitz, no block-Toeplitz perturbation lowers the objective). Matrix-valued lambda: Lambda_class and frame conditions "
+         "proved, the class-value invariant of the Z-step only for the scalar form."),
  'C03': ("Proof of: exact symmetry of every re-inflated matrix (cell-wise, for all n), exactness of the floor filter (comparisons only), finite "
          "log-determinant at the three sites (slogdet; np.linalg.det is modelled with its IEEE underflow clause, which is what refuted the "
          "original log(det(.)) code), per-eigenvalue positivity over the reals.", "4/C03",
@@ -40,11 +41,13 @@ CLAIMS = {
          "data flow, not of floating-point accuracy; JIT execution by assumption (C15)."),
  'C06': ("Proof of list lengths (one entry per point labelled k, via a counting function), concatenation, sum/mean/median taken over exactly those "
          "lists (0 for an empty cluster), cost == kernel cost, copies in the multi-series result.", "4/C06",
-         "Known finding (open): for joint runs the switching cost is also charged on series-boundary pairs (same call site as C07)."),
+         "Known finding (open): for joint runs the switching cost is also charged on series-boundary pairs (same call site as C07). The "
+         "labelling kernel (reported cost = total of the returned path) and the frames of the two scoring functions are part of this check; "
+         "cost = -LL + beta*switches end to end is a bounded stand-in."),
  'C07': ("Proof for all tuples of lengths that the mask has its zeros exactly at the boundary pairs (after the fix), that stacking never crosses a "
          "series (C10), that the joint result is split by the stacked lengths.", "4/C07",
          "Known finding (open): the masked vector never reaches the main loop (data-flow obligation on ticc_joint_labels fails; repairing it "
-         "changes pinned regression values)."),
+         "changes pinned regression values). The kernel's vector-beta contract (entry i prices the pair (i, i+1)) is part of this check."),
  'C08': ("Proof of: the donor decision procedure (first candidate, >= 2m, stays iff >= 3m), ranking (exactly the clusters with >= 2m points, "
          "ordered by decreasing covariance norm), the sampled points move from the donor to the recipient and nothing else changes, labels stay in "
          "range, points move only from a 2m-donor into an under-populated cluster, identity when nothing is under-populated, the caller's state is "
@@ -65,7 +68,8 @@ CLAIMS = {
          "np.triu_indices is an assumed contract (row-major enumeration); np.sqrt exact on perfect squares."),
  'C12': ("Proof that the statistics phase fits each cluster to the rows listed in its own (correct) member list with the requested divisor, and that "
          "task k carries cluster k's covariance, the user's lambda, W and N unchanged with the fixed solver settings.", "4/C12",
-         "np.cov / np.mean are uninterpreted functions of (rows, flag)."),
+         "np.cov / np.mean are uninterpreted functions of (rows, flag). The label/membership setters and the argument copies are part of this "
+         "check; the phase-trace stand-in (bounded) observes what each fit is actually handed, with the estimator the user requested."),
  'C13': ("Proof of the representation invariant (member list k == ascending list of the points labelled k, by a counting function) for "
          "_update_cluster_membership, the setters, copies, and as postcondition of every phase; deep copies share nothing mutable; each phase's frame "
          "excludes labelling, membership and fitted statistics of the state given.", "4/C13",
@@ -79,16 +83,20 @@ CLAIMS = {
          "prange body writes only result[point, .]; the kernels' own contracts (C01, C05) then apply to every mode.", "4/C15",
          "That Numba-compiled code behaves as its source is ASSUMED; a bounded differential run stands in."),
  'C16': ("Proof that the value returned is P*ln(T) - 2*sum_k(logdet - trace(Theta S)) with P the run-sum of per-cluster counts (loop invariants over "
-         "the real code) and that it is finite (slogdet).", "4/C16", "trace/dot/slogdet uninterpreted; real arithmetic."),
+         "the real code) and that it is finite (slogdet).", "4/C16", "trace/dot/slogdet uninterpreted; real arithmetic. 'S_k is the covariance cluster k was fitted to' across phases is observed by the "
+         "bounded phase-trace stand-in (the contract of the BIC function speaks about the state it is given)."),
  'C17': ("Ratio and degrees-of-freedom clause proved; the centre clause of the property is REFUTED on the pinned tree and listed as a known finding "
          "(scalar centre), with the behaviour pinned so that further drift is reported.", "4/C17",
          "Verified for runs in which every cluster is non-empty (as the property states)."),
  'C18': ("Proof that the scalar forms (float, and after the fix int / NumPy scalars) give lambda*(W-b), that a matrix filled with one value gives the "
          "same class weight over the reals, that scalar and vector beta are broadcast to the same per-pair vector.", "4/C18",
-         "Bit-identity of float summation orders is NOT claimed (real arithmetic)."),
+         "Bit-identity of float summation orders is NOT claimed (real arithmetic). End-to-end equality of the forms on both front ends is a "
+         "bounded stand-in (forms_equivalence); the front ends' frame obligations (no store into a parameter) are part of this check."),
  'C19': ("Frame obligation at every store site of every function on the entry paths (target fresh or named in assigns), unchanged(...) "
          "postconditions on caller data for normal and exceptional exits, plus a syntactic whole-package scan for stores into parameters.", "4/C19",
-         "Library calls are assumed not to write their arguments; read-only acceptance by Numba is bounded only."),
+         "Library calls are assumed not to write their arguments; read-only acceptance by Numba is bounded only. Non-finite inputs do not exist "
+         "in the VCs (floats are reals): byte-for-byte comparison of caller arrays after calls with NaN/inf/integer/vector inputs, returning "
+         "or raising, is a bounded stand-in."),
  'C20': ("Exceptional postconditions: a worker failure is raised iff some task failed (no handler on the path: a ghost flag makes 'returns after a "
          "failure' an obligation), RuntimeError propagates with the caller state untouched, wrong-kind input raises TypeError naming the other entry "
          "point, the pool is closed and joined on every exit path.", "4/C20", "'never hangs' is liveness: bounded only."),
